@@ -23,11 +23,11 @@ import (
 	"os"
 	"sort"
 
+	"github.com/TheManticoreProject/Manticore/windows/guid"
 	kcl "github.com/TheManticoreProject/Manticore/windows/keycredential"
 	kcrypto "github.com/TheManticoreProject/Manticore/windows/keycredential/crypto"
 	"github.com/TheManticoreProject/Manticore/windows/keycredential/key"
 	kutils "github.com/TheManticoreProject/Manticore/windows/keycredential/utils"
-	"github.com/TheManticoreProject/Manticore/windows/guid"
 	"verif/harness/h"
 )
 
@@ -559,7 +559,9 @@ func c14Cred(c *h.Ctx, k c14Case, own map[string]int, kept *[]c14Kept) {
 			c14ParseBack(f, e, P)
 		} else {
 			tag := ":foreign-encoding"
-			c14ParseBack(f, e, func(site, aspect, detail string) { D(site, aspect+tag, fmt.Sprintf("[%s/%s/%s] %s", e.Ew, e.Cki, e.Magic, detail)) })
+			c14ParseBack(f, e, func(site, aspect, detail string) {
+				D(site, aspect+tag, fmt.Sprintf("[%s/%s/%s] %s", e.Ew, e.Cki, e.Magic, detail))
+			})
 		}
 		c.Exec(3)
 	}
@@ -582,11 +584,41 @@ func c14Cred(c *h.Ctx, k c14Case, own map[string]int, kept *[]c14Kept) {
 			break
 		}
 	}
+	// 6. one scratch KeyCredential parses every blob of the run (a loop over msDS-KeyCredentialLink values) and each result is
+	// kept BY VALUE (`first := scratch`): it still re-serialises to its own blob after the scratch object parsed the next one
+	{
+		in := append([]byte(nil), blob...)
+		var e7 error
+		p7 := h.Guard(func() { e7 = c14Scratch.FromBytes(in) })
+		if c14ScratchSaved != nil {
+			again, e6 := []byte(nil), error(nil)
+			if p := h.Guard(func() { again, e6 = c14ScratchSaved.ToBytes() }); p != "" || e6 != nil || !bytes.Equal(again, c14ScratchBlob) {
+				c.Fail(c14KC+".FromBytes", "kept-by-value-changed-by-next-parse", fmt.Sprintf("a credential parsed into a reused object and kept by value re-serialises differently (at %s) after the object parsed the next blob %s%v", c14FirstDiff(c14ScratchBlob, again), p, e6), smp)
+			}
+			c.Exec(1)
+		}
+		if p7 == "" && e7 == nil {
+			saved := c14Scratch
+			c14ScratchSaved = &saved
+			if b8, e8 := saved.ToBytes(); e8 == nil {
+				c14ScratchBlob = b8
+			} else {
+				c14ScratchSaved = nil
+			}
+		} else {
+			c14Scratch = kcl.KeyCredential{}
+			c14ScratchSaved = nil
+		}
+	}
 	*kept = append(*kept, c14Kept{kc: kc, blob: blob, copy: append([]byte(nil), blob...), smp: smp})
 	if len(*kept) > 3 {
 		*kept = (*kept)[1:]
 	}
 }
+
+var c14Scratch kcl.KeyCredential
+var c14ScratchSaved *kcl.KeyCredential
+var c14ScratchBlob []byte
 
 func c14min(a, b int) int {
 	if a < b {
